@@ -10,5 +10,5 @@ CONSTANTS
   Deviations = {}
   Emit = FALSE
 VIEW MCView
-INVARIANTS TypeOK P_C07_NoDrift P_C07_RejectedLeavesNoTrace P_C08_Converges P_C09_OkMeansApplied P_ProxiesFollowConfig
+INVARIANTS TypeOK P_C07_NoDrift P_C07_RejectedLeavesNoTrace P_C08_Converges P_C09_OkMeansApplied P_ProxiesFollowConfig P_Confluent
 CHECK_DEADLOCK FALSE
